@@ -85,7 +85,11 @@ func runEOFKind(r *core.Run) {
 							esc = "stored"
 						}
 					case *ssa.Call:
-						esc = "passed to " + x.Call.String()
+						// handing the error to a function of this module lets it leave (setErr helpers); a library
+						// call (errors.Is, fmt) only inspects it
+						if f := x.Call.StaticCallee(); f == nil || (f.Pkg != nil && core.InModule(f.Pkg.Pkg)) {
+							esc = "passed to " + x.Call.String()
+						}
 					case *ssa.Phi:
 						walk(x)
 					case *ssa.ChangeInterface:
